@@ -140,3 +140,38 @@ func TestRegression_Examples(t *testing.T) {
 		checkMetaWire(t, "sql: "+text, s.(*stmt.MetricMetadata))
 	}
 }
+
+// OBSERVATION, never failing (C17 does not state that the parsed tree reflects the text; the wire
+// round trip and determinism hold for these statements, which TestParsedQuerySurvivesWire checks
+// for the generated shape=filterInsideExpr class). A tag filter may be written inside a select /
+// having expression (rule exprAtom: ident identFilter?, identFilter: '[' tagFilterExpr ']').
+// baseStmtParser keeps the tag filter under construction on the same stack as the select expression,
+// and completeTagFilterExpr attaches the finished filter to whatever is on top of that stack: the
+// arithmetic BinaryExpr / ParenExpr around the field. The filter takes an operand slot, and the
+// operand written in the text finds both slots taken and is dropped: `select f[host='a'] - 1 from m`
+// selects `f - (host=a)`. A filter on an atom whose enclosing node has no free slot left (the right
+// operand: `g * f[host='a']`) or that sits directly in a call (`sum(f[host='a'])`) is harmless.
+// A possible repair is kept in proposed_fix_tag_filter_operand.diff.
+func TestRegression_TagFilterBecomesOperand(t *testing.T) {
+	for _, text := range []string{
+		`select f[host='a'] - 1 from m`,
+		`select (f[host='a']) from m`,
+		`select g - f[host='a'] + 2 from m`, // '+' binds tighter than '-' in this grammar: f is the left operand of '+'
+		`select f from m group by host having f[host='a'] > 1`,
+	} {
+		s, err := sql.Parse(text)
+		if err != nil {
+			t.Logf("observation: %s is rejected now: %v", text, err)
+			continue
+		}
+		q := s.(*stmt.Query)
+		got := map[string]int{}
+		for _, e := range q.SelectItems {
+			treeCensus("", e, got)
+		}
+		treeCensus("", q.Having, got)
+		t.Logf("observation: %s => select/having expressions hold %s", text, censusString(got))
+		// what C17 does state holds for it
+		checkQueryWire(t, "sql: "+text, q)
+	}
+}
